@@ -1,4 +1,5 @@
 """C02 - verification verdicts equal the documented meaning of each constraint."""
+from ..pyeval import Model as _PyevalModel
 import ast
 
 from .. import mirror, tables
@@ -355,6 +356,15 @@ def mirrors(run, p):
     run.floor('C02-MIRROR', n, 9)
 
 
+class _BackendDate(_PyevalModel):
+    """a date statistic as a backend returns it: not comparable with a datetime until the verifier's to_datetime has converted it"""
+    def __init__(self, value):
+        self.raw_value = value
+
+    def __repr__(self):
+        return 'backend-date(%s)' % self.raw_value.date()
+
+
 def verdicts(run, p, km):
     """every base verifier evaluated with stand-in statistics against the documented meaning of its constraint"""
     import datetime as dt
@@ -406,6 +416,11 @@ def verdicts(run, p, km):
                 want = a >= v if kind == 'min' else a <= v
                 if bool(got) != want or isinstance(got, str):
                     bad.append(('precision=%r date value=%s column %s=%s' % (prec, v.date(), kind, a.date()), got, want))
+                # the statistic as the backend hands it over (a date object, a database string): only to_datetime makes it comparable
+                got = eval_verifier(p, ver, kind, v, {stat: _BackendDate(a), 'calc_tdda_type': 'date'}, precision=prec)
+                k += 1
+                if bool(got) != want or isinstance(got, str):
+                    bad.append(('precision=%r date value=%s column %s=%s in the backend\'s own form' % (prec, v.date(), kind, a.date()), got, want))
         got = eval_verifier(p, ver, kind, 1, {stat: 1, 'column_exists': False})
         k += 1
         if got is not False:
@@ -745,7 +760,7 @@ def eval_verifier(p, ver, kind, value, stubs, detect=False, epsilon=None, **attr
             num = (bool, int, float)
             return True, (isinstance(a, num) and isinstance(b, num)) or type(a) is type(b)
         if mth.name == 'to_datetime':
-            return True, args[0]
+            return True, getattr(args[0], 'raw_value', args[0])     # a statistic in the backend's own date form becomes a datetime here
         if mth.name.startswith('detect_'):
             return True, None
         return False, None
